@@ -342,7 +342,16 @@ func canonDepth(v ssa.Value, d int) string {
 		return "global:" + x.String()
 	case *ssa.Parameter, *ssa.FreeVar:
 		return x.Name()
+	case *ssa.Phi:
+		if canonPhiHook != nil {
+			if r := canonPhiHook(x); r != nil && r != ssa.Value(x) {
+				return canonDepth(r, d+1)
+			}
+		}
 	case *ssa.Call:
+		if b, ok := x.Call.Value.(*ssa.Builtin); ok && (b.Name() == "len" || b.Name() == "cap") && len(x.Call.Args) == 1 {
+			return b.Name() + "(" + canonDepth(x.Call.Args[0], d+1) + ")"
+		}
 		// calls of side-effect-free leaf functions of the module (nil-safe getters) are pure expressions
 		if f := x.Call.StaticCallee(); f != nil && isPureLeaf(f) {
 			var as []string
@@ -354,6 +363,9 @@ func canonDepth(v ssa.Value, d int) string {
 	}
 	return v.Name()
 }
+
+// canonPhiHook lets a path-sensitive client (decision-table extraction) resolve phis by the path being walked.
+var canonPhiHook func(*ssa.Phi) ssa.Value
 
 // isPureLeaf: a function with a body that contains no store, map update, call or
 // other effect: its result is a function of its arguments and of the memory they reach.
